@@ -405,3 +405,43 @@ def install_arrays(it):
     for nm in ("float64", "float32"):
         it.overrides.setdefault(f"np.{nm}", f"np.{nm}")
     return it
+
+
+import functools as _functools
+
+
+@_functools.total_ordering
+class NPInt(PyNative):
+    """A NumPy integer scalar (np.int64(5)): compares, hashes and converts like an integer, but is NOT an instance of Python's int,
+    and prints as `np.int64(5)` under repr() (NumPy 2) - so `str((np.int64(2),))` is not C."""
+
+    def __init__(self, v):
+        self.v = int(v)
+
+    def __int__(self):
+        return self.v
+
+    __index__ = __int__
+
+    def __eq__(self, o):
+        return (o.v if isinstance(o, NPInt) else o) == self.v
+
+    def __lt__(self, o):
+        return self.v < (o.v if isinstance(o, NPInt) else o)
+
+    def __hash__(self):
+        return hash(self.v)
+
+    def __neg__(self):
+        return NPInt(-self.v)
+
+    def __mul__(self, o):
+        return NPInt(self.v * int(o))
+
+    __rmul__ = __mul__
+
+    def __repr__(self):
+        return f"np.int64({self.v})"
+
+    def __str__(self):
+        return str(self.v)
